@@ -278,7 +278,9 @@ chk("C19", "model_checking",
     "0/1/the 8192-byte BufReader boundary/65535, both magics, small / huge snaplen) cut at random (thorough: every) "
     "byte offsets or corrupted (caplen above snaplen, bad magic, short header, trailing garbage), read by random "
     "interleavings of pcap_read_next / pcap_read_all(f[, n]); every returned packet is written with pcap_write and "
-    "read back. spec/PcapFileTrace.tla parses the file bytes itself and validates every call against the outcome sets.",
+    "read back; plus files of small records laid out so that a record header begins 1..15 bytes before a multiple of "
+    "8192 (the refill of the reader's buffer), intact and cut just behind it. "
+    "spec/PcapFileTrace.tla parses the file bytes itself and validates every call against the outcome sets.",
     "Big-endian captures count as bad magic (the property names the two little-endian magics).",
     "TLA+ state machine model-checked by TLC; recorded call histories of the real interpreter trace-validated by TLC",
     "DESIGN.md section 4, C19")
